@@ -315,7 +315,9 @@ class Ref:
     def _complete(self, ch, s):
         if s[1] == "deliver" and s[2] not in self.tags[ch]:
             return "UnknownConsumerTag", False
-        return "ok", s[1] != "return"
+        # who is sent to: a consumer's queue (unbounded: can only fail if its receiver was dropped),
+        # the channel's bounded reply queue (get), or a listener (never fails)
+        return "ok", ("consumer" if s[1] == "deliver" else ("reply" if s[1] == "get" else False))
 
 
 def outcome_of(lines, state_after):
